@@ -6,7 +6,9 @@ package main
 
 import (
 	"fmt"
+	"os"
 	"path/filepath"
+	"strings"
 )
 
 type c20Builder struct {
@@ -185,6 +187,23 @@ func c20Scripted(scratch string) []*c20Hist {
 	b.conf("dconfigure", false)
 	hs = append(hs, b.finish())
 
+	// 6b. the same directories in another order: nothing changes but the precedence (every directory defines a0 in a.json), in
+	// automatic and in manual mode, with a directory named twice, with Cache.WriteSpec / RemoveSpec acting on the last one
+	b = newC20Builder("single", root(), "d0", "d1", "d2")
+	b.conf("new", false, b.dirs("d0", "d1"))
+	b.conf("configure", false, b.dirs("d1", "d0"))
+	b.write("d0", "b.yaml", true, "b0")
+	b.h.in.Steps = append(b.h.in.Steps, c20Step{Op: "writespec", Dir: b.dir("d0"), Name: "c.json", Devs: []string{"c0"}, Observe: true})
+	b.conf("configure", false, c20Auto(false))
+	b.conf("configure", false, b.dirs("d0", "d1"))
+	b.h.in.Steps = append(b.h.in.Steps, c20Step{Op: "writespec", Dir: b.dir("d1"), Name: "c.json", Devs: []string{"c0", "c1"}, Observe: true})
+	b.conf("configure", false, b.dirs("d1/", "d0", "d1"))
+	b.conf("configure", false, c20Auto(true), b.dirs("d0", "d1", "d2"))
+	b.h.in.Steps = append(b.h.in.Steps, c20Step{Op: "others", Others: [][]string{{b.dir("d0")}, {b.dir("d1"), b.dir("d0")}, {b.dir("d2")}, {b.dir("missing")}}, Observe: true})
+	b.conf("configure", false, b.dirs("d2", "d1", "d0"))
+	b.h.in.Steps = append(b.h.in.Steps, c20Step{Op: "removespec", Dir: b.dir("d0"), Name: "c.json", Observe: true})
+	hs = append(hs, b.finish())
+
 	for _, h := range hs {
 		h.kind += "-scripted"
 	}
@@ -200,5 +219,26 @@ func c20Scripted(scratch string) []*c20Hist {
 	h7.known = "C20/rescan-during-shortage"
 	hs = append(hs, h7)
 
+	// 8. DEFECT-PENDING(straggler-direrrors): a reconfiguration while the watch goroutine of the replaced watcher still holds
+	// an event (notes/audit/DEFECT-C20-straggler-direrrors.md)
+	if c20PendingStraggler || strings.Contains(","+os.Getenv("VERIF_PENDING")+",", ",straggler-direrrors,") {
+		b = newC20Builder("single", root(), "d0", "d1")
+		b.conf("new", false, b.dirs("d0"))
+		b.write("d0", "b.yaml", true, "b0")
+		opt := b.dirs("d0", "later")
+		b.h.in.Steps = append(b.h.in.Steps, c20Step{Op: "straggler", Opts: []c20Opt{opt}, Dir: b.dir("d0"), Name: b.dir("later"), Observe: true})
+		b.h.nconf++
+		b.exists[b.dir("later")] = true
+		b.write("later", "c.json", true, "c0")
+		b.conf("configure", false, b.dirs("later", "d0"))
+		h8 := b.finish()
+		h8.kind += "-scripted"
+		hs = append(hs, h8)
+	}
+
 	return hs
 }
+
+// DEFECT-PENDING(straggler-direrrors): off until the integrator has decided between a repair and a known finding
+// (VERIF_PENDING=straggler-direrrors switches the history on for one run).
+const c20PendingStraggler = false
